@@ -36,6 +36,7 @@ EXPLANATION = (
     ' (R6, round 3) no public getter rebuilds indices from variable names (known finding: get_variable_values); (R7) bounds of integer variables are rounded inwards.'
     ' (R5, round 4) the i-th value handed to HiGHS belongs to the i-th column index: values are read from the dict through the index sequence, or the two arrays are the parallel queues.'
     ' (R3, benign 4) the one-hot row of the piecewise helper sums over the index set of the selector family (structural, no text match).'
+    ' (R7, hunt 6) every name the models read through `self.solver.` is a member of SolverWrapper (package-wide).'
 )
 DECIDED = ["exactness of the binary*continuous product helper (soundness + completeness, algebraic proof)",
            "structure and bit-count sufficiency of the integer*continuous helper",
@@ -61,6 +62,7 @@ def check(prog: Program, rep):
     # every name the models read through `self.solver.` is a member of the wrapper
     from rules.values import solver_members_exist
     solver_members_exist(prog, rep, "C12.R7")
+    helper_coefficients_converted(prog, rep, "C12.R7")
     rep.rule("C12.T", "helpers conform to the frozen formulation table (structure of rows, families, bounds)", floor=14)
     conformance(prog, rep, "C12.T", "C12")
 
@@ -457,6 +459,42 @@ def r3(prog, rep):
 
 
 # ------------------------------------------------------------------------------------------------ R4
+def helper_coefficients_converted(prog, rep, RID):
+    """The binary-times-continuous helper multiplies solver variables by its bounds lb / ub.  Bounds of every numeric type are accepted for variables
+    (R7), so the helper must turn them into Python floats before they become coefficients: np.longdouble, Fraction and Decimal are refused by the solver's
+    expression classes (bare Exception('Unexpected parameters.'))."""
+    f = prog.own_method("SolverWrapper", "add_binary_continuous_product_constraint")
+    params = [p for p in f.params if p in ("lb", "ub")]
+    if len(params) != 2:
+        raise AnalysisError("add_binary_continuous_product_constraint: parameters lb / ub not found")
+    rebound = {}
+    for st in walk_no_nested(f.node):
+        if isinstance(st, ast.Assign) and len(st.targets) == 1:
+            t, v = st.targets[0], st.value
+            pairs = list(zip(t.elts, v.elts)) if isinstance(t, ast.Tuple) and isinstance(v, ast.Tuple) and len(t.elts) == len(v.elts) else [(t, v)]
+            for tt, vv in pairs:
+                if isinstance(tt, ast.Name) and tt.id in params and isinstance(vv, ast.Call) and dotted(vv.func) == "float" and len(vv.args) == 1 and norm(vv.args[0]) == tt.id:
+                    rebound[tt.id] = st.lineno
+    n = 0
+    for node in ast.walk(f.node):
+        if isinstance(node, ast.BinOp) and isinstance(node.op, ast.Mult):
+            for o in (node.left, node.right):
+                if isinstance(o, ast.Name) and o.id in params:
+                    n += 1
+                    key = f"SolverWrapper.add_binary_continuous_product_constraint:{o.id}-as-coefficient"
+                    if o.id in rebound and rebound[o.id] < node.lineno:
+                        rep.ok(RID, key, f"`{o.id}` is a Python float where it multiplies a variable", f.loc(node))
+                    else:
+                        rep.violation(RID, key, f"`{norm(node)[:60]}` multiplies a solver variable by the bound `{o.id}` as it came: scalar bounds of every numeric type are accepted for "
+                                      "variables, but as a coefficient np.longdouble / Fraction / Decimal raise a bare Exception('Unexpected parameters.') - MinGenSet with such a "
+                                      "total, MinFlowDecomp(.Cycles) with use_min_gen_set_lowerbound=True on such flow values", f.loc(node))
+    if n == 0:
+        # float(lb) * var written in place
+        if not any(isinstance(c, ast.Call) and dotted(c.func) == "float" and c.args and norm(c.args[0]) in params for c in ast.walk(f.node)):
+            raise AnalysisError("add_binary_continuous_product_constraint: no use of lb / ub as coefficient found")
+        rep.ok(RID, "SolverWrapper.add_binary_continuous_product_constraint:bounds-as-coefficient", "bounds are converted where they are used", f.loc())
+
+
 def r4(prog, rep):
     rep.rule("C12.R4", "objective replacement: install dominated by a reset of all costs; offset set on the same path", floor=2)
     f = prog.own_method("HighsCustom", "set_objective_without_solving")
